@@ -105,6 +105,7 @@ NextRows(pre, f, ctx, x, t) ==
                        /\ AllOr({r.gs = pre.gs, r.trk = pre.trk, r.roll = pre.roll, r.tar = pre.tar, r.tas = pre.tas})
                        /\ AllOr({r.hdg = pre.hdg, r.ias = pre.ias, r.mach = pre.mach, r.vr = pre.vr})
                        /\ AllOr({r.sel = pre.sel, r.baro = pre.baro})
+                       /\ OneRegister(pre, r)
   IN  {[lat |-> p[1], lon |-> p[2]] @@ r : r \in {rr \in base : Coherent(rr)},
         p \in (IF Free(f) \/ IsSurface(f) THEN {<<pre.lat, pre.lon>>} ELSE {q \in posC : AdmPos(pre, q[1], q[2], f, vd)})}
 
